@@ -530,13 +530,20 @@ func (t *Table) getLastKey(item map[string]*types.Item, limit, count, scanned, k
 // no item (empty table, empty partition, key condition that matches nothing): the expressions are
 // otherwise only parsed while an item is evaluated. It fails the way interpreterMatch does.
 func (t *Table) checkSearchExpressions(input QueryInput) {
-	if t.UseNativeInterpreter {
-		// the expression text may be the name of a registered matcher
-		return
+	expressions := map[interpreter.ExpressionType]string{
+		interpreter.ExpressionTypeKey:    input.KeyConditionExpression,
+		interpreter.ExpressionTypeFilter: input.FilterExpression,
 	}
 
-	for _, expression := range []string{input.KeyConditionExpression, input.FilterExpression} {
+	for _, kind := range []interpreter.ExpressionType{interpreter.ExpressionTypeKey, interpreter.ExpressionTypeFilter} {
+		expression := expressions[kind]
 		if expression == "" {
+			continue
+		}
+
+		if t.UseNativeInterpreter && t.NativeInterpreter.HasMatcher(t.Name, kind, expression) {
+			// the expression text is the name of a registered matcher; every other expression falls
+			// back to the language interpreter, like it does when an item is evaluated
 			continue
 		}
 
